@@ -2,6 +2,7 @@
    specification predicates of Model/BranchSpec.v.  Statements used by Properties/C17.v:
      deinitialize_exact, namespaces_disjoint, ensure_patch_refs_exact, cleanup_exact,
      delete_exact, rename_carries_stack, rename_config, clone_carries_stack,
+     create_exact, switch_exact, describe_exact,
      protected_refuses, refused_changes_nothing, other_branches_untouched,
      stgit_twin_refuted, eval3_sound. *)
 From Coq Require Import List NArith Bool String Lia Setoid.
@@ -905,9 +906,13 @@ Proof.
     [|intros H; injection H as <- <-; left; split; [reflexivity|right; exists cur, ps; auto]].
   cbn [b_refs b_cfg b_states].
   destruct (name_free s_refs_heads (ensure_patch_refs (b_refs r) cur ps) None new) eqn:En;
-    cbn [negb]; intros H; injection H as <- <-.
-  - right. split; [reflexivity|]. exists cur, hid, sid, ps. repeat split; auto.
+    cbn [negb];
+    [|intros H; injection H as <- <-; left; split; [reflexivity|right; exists cur, ps; auto]].
+  destruct (existsb (fun x => df_conflict x new)
+              (names_under s_refs_stacks (ensure_patch_refs (b_refs r) cur ps))) eqn:Edf;
+    intros H; injection H as <- <-.
   - left. split; [reflexivity|right; exists cur, ps; auto].
+  - right. split; [reflexivity|]. exists cur, hid, sid, ps. repeat split; auto.
 Qed.
 
 Lemma In_cl_refs : forall R cur new hid sid ps k v,
@@ -1036,13 +1041,305 @@ Proof.
   - intros H. injection H as <- <-. left. split; reflexivity.
 Qed.
 
+(* ================================================================ create / switch / describe *)
+
+Lemma ref_get_filter : forall (f : str * N -> bool) r k,
+  (forall v, f (k, v) = true) -> ref_get (filter f r) k = ref_get r k.
+Proof.
+  intros f r k Hf. induction r as [|[k' v'] r IH]; [reflexivity|].
+  cbn [filter]. destruct (f (k', v')) eqn:Ef.
+  - cbn [ref_get]. rewrite IH. reflexivity.
+  - cbn [ref_get]. destruct (str_eqb k' k) eqn:E; [|exact IH].
+    apply str_eqb_eq in E. subst k'. rewrite Hf in Ef. discriminate Ef.
+Qed.
+
+Lemma ref_get_app_other : forall r k' v' k,
+  k' <> k -> ref_get (r ++ [(k', v')]) k = ref_get r k.
+Proof.
+  intros r k' v' k Hne. induction r as [|[k0 v0] r IH].
+  - cbn [app ref_get]. apply str_eqb_neq in Hne. rewrite Hne. reflexivity.
+  - cbn [app ref_get]. rewrite IH. reflexivity.
+Qed.
+
+Lemma ref_get_set_other : forall r k0 v0 k,
+  k0 <> k -> ref_get (ref_set r k0 v0) k = ref_get r k.
+Proof.
+  intros r k0 v0 k Hne. unfold ref_set. rewrite ref_get_app_other; [|exact Hne].
+  unfold ref_del. apply ref_get_filter. intros v. cbn [fst].
+  apply negb_str_eqb_true. congruence.
+Qed.
+
+Lemma ref_get_del_prefix_other : forall r p k,
+  starts_with p k = false -> ref_get (ref_del_prefix r p) k = ref_get r k.
+Proof.
+  intros r p k Hk. unfold ref_del_prefix. apply ref_get_filter. intros v. cbn [fst].
+  rewrite Hk. reflexivity.
+Qed.
+
+Lemma ref_get_ensure_other : forall refs b ps k,
+  starts_with (patch_prefix b) k = false ->
+  (forall n, k <> patch_ref b n) ->
+  ref_get (ensure_patch_refs refs b ps) k = ref_get refs k.
+Proof.
+  intros refs b ps k Hk Hn. unfold ensure_patch_refs.
+  induction ps as [|[n c] ps IH] using rev_ind.
+  - cbn [map]. rewrite app_nil_r. apply ref_get_del_prefix_other. exact Hk.
+  - rewrite map_app, app_assoc. cbn [map fst snd]. rewrite ref_get_app_other; [exact IH|].
+    intros X. exact (Hn n (eq_sym X)).
+Qed.
+
+Lemma In_cfg_set_other : forall c s k v e,
+  ce_sub e <> s -> (In e (cfg_set c s k v) <-> In e c).
+Proof.
+  intros c s k v e Hne. rewrite In_cfg_set. split.
+  - intros [[H _]|H]; [exact H|]. subst e. contradiction Hne. reflexivity.
+  - intros H. left. split; [exact H|]. intros [X _]. contradiction.
+Qed.
+
+(* the refs and the config a successful --create leaves behind *)
+Definition cr_refs (R : list (str * N)) (new : str) (tid sid : N) : list (str * N) :=
+  ensure_patch_refs (ref_set (ref_set R (head_ref new) tid) (stack_ref new) sid) new [].
+
+Definition cr_cfg1 (C : list cfgent) (new : str) (parent : option str) : list cfgent :=
+  match parent with
+  | Some p => cfg_set C (stgit_sub new) s_parentbranch p
+  | None => C
+  end.
+
+Definition cr_cfg (C : list cfgent) (new : str) (parent : option str) : list cfgent :=
+  match parent with
+  | Some p =>
+      match cfg_get C p s_remote, cfg_get C p s_merge with
+      | Some rem, Some mrg =>
+          cfg_set (cfg_set (cr_cfg1 C new parent) new s_remote rem) new s_merge mrg
+      | _, _ => cr_cfg1 C new parent
+      end
+  | None => cr_cfg1 C new parent
+  end.
+
+Definition cr_target (r : brepo) (from : option str) (hid : N) : option N :=
+  match from with
+  | Some f => ref_get (b_refs r) (head_ref f)
+  | None => Some hid
+  end.
+
+Definition cr_parent (r : brepo) (from : option str) : option str :=
+  match from with Some f => Some f | None => b_head r end.
+
+Lemma create_inv : forall r new from hid sid r' ok,
+  create r new from hid sid = (r', ok) ->
+  (ok = false /\ r' = r)
+  \/ (ok = true /\ exists tid,
+        cr_target r from hid = Some tid
+        /\ r' = mkB (cr_refs (b_refs r) new tid sid) (cr_cfg (b_cfg r) new (cr_parent r from))
+                    (Some new) ((sid, []) :: b_states r)).
+Proof.
+  intros r new from hid sid r' ok. unfold create, refuse.
+  destruct (ref_get (b_refs r) (head_ref new)) as [x|];
+    [intros H; injection H as <- <-; left; split; reflexivity|].
+  fold (cr_target r from hid). fold (cr_parent r from).
+  destruct (cr_target r from hid) as [tid|];
+    [|intros H; injection H as <- <-; left; split; reflexivity].
+  destruct (name_free s_refs_heads (b_refs r) None new); cbn [negb];
+    [|intros H; injection H as <- <-; left; split; reflexivity].
+  destruct (existsb (fun x => df_conflict x new) (names_under s_refs_stacks (b_refs r)));
+    [intros H; injection H as <- <-; left; split; reflexivity|].
+  intros H. injection H as <- <-. right. split; [reflexivity|]. exists tid.
+  split; [reflexivity|]. unfold cr_refs, cr_cfg, cr_cfg1.
+  destruct (cr_parent r from) as [p|]; reflexivity.
+Qed.
+
+Lemma In_cr_refs : forall R new tid sid k v,
+  In (k, v) (cr_refs R new tid sid) <->
+  (In (k, v) R /\ ~ ref_of_branch new k)
+  \/ (k = head_ref new /\ v = tid) \/ (k = stack_ref new /\ v = sid).
+Proof.
+  intros R new tid sid k v. unfold cr_refs. rewrite In_ensure, !In_ref_set, not_rob. split.
+  - intros [[H Hpn]|[n [_ []]]].
+    destruct H as [[H Hsn]|H]; [|right; right; exact H].
+    destruct H as [[H Hhn]|H]; [|right; left; exact H].
+    left. auto.
+  - intros [[H [Hhn [Hsn Hpn]]]|[[-> ->]|[-> ->]]].
+    + left. split; [|exact Hpn]. left. split; [|exact Hsn]. left. split; assumption.
+    + left. split; [|apply pp_not_head]. left. split; [|apply head_neq_stack].
+      right. split; reflexivity.
+    + left. split; [|apply pp_not_stack]. right. split; reflexivity.
+Qed.
+
+(* the stack ref of any other name is read as before *)
+Lemma ref_get_cr_refs_stack : forall R new tid sid b,
+  b <> new -> ref_get (cr_refs R new tid sid) (stack_ref b) = ref_get R (stack_ref b).
+Proof.
+  intros R new tid sid b Hne. unfold cr_refs.
+  rewrite ref_get_ensure_other;
+    [|apply pp_not_stack|intros n X; symmetry in X; exact (patch_ref_neq_stack _ _ _ X)].
+  rewrite ref_get_set_other; [|intros X; apply stack_ref_inj in X; congruence].
+  apply ref_get_set_other. apply head_neq_stack.
+Qed.
+
+Lemma cr_cfg1_outside : forall C new parent e,
+  ce_sub e <> stgit_sub new -> (In e (cr_cfg1 C new parent) <-> In e C).
+Proof.
+  intros C new [p|] e H; unfold cr_cfg1; [|reflexivity]. apply In_cfg_set_other. exact H.
+Qed.
+
+Lemma cr_cfg_outside : forall C new parent e,
+  ce_sub e <> new -> ce_sub e <> stgit_sub new -> (In e (cr_cfg C new parent) <-> In e C).
+Proof.
+  intros C new parent e H1 H2. unfold cr_cfg.
+  destruct parent as [p|]; [|apply cr_cfg1_outside; exact H2].
+  destruct (cfg_get C p s_remote) as [rem|]; [|apply cr_cfg1_outside; exact H2].
+  destruct (cfg_get C p s_merge) as [mrg|]; [|apply cr_cfg1_outside; exact H2].
+  rewrite In_cfg_set_other; [|exact H1]. rewrite In_cfg_set_other; [|exact H1].
+  apply cr_cfg1_outside. exact H2.
+Qed.
+
+Lemma state_get_fresh : forall S sid ps id,
+  id <> sid -> state_get ((sid, ps) :: S) id = state_get S id.
+Proof.
+  intros S sid ps id Hne. cbn [state_get]. destruct (sid =? id) eqn:E; [|reflexivity].
+  apply N.eqb_eq in E. congruence.
+Qed.
+
+Lemma create_exact :
+  forall r new from hid sid r',
+    create r new from hid sid = (r', true) ->
+    ref_get (b_refs r') (head_ref new)
+      = match from with Some f => ref_get (b_refs r) (head_ref f) | None => Some hid end
+    /\ ref_get (b_refs r') (stack_ref new) = Some sid
+    /\ stack_patches r' new = Some []
+    /\ (forall k v, starts_with (patch_prefix new) k = true -> ~ In (k, v) (b_refs r'))
+    /\ same_refs_outside (ref_of_branch new) r r'
+    /\ same_cfg_outside (fun s => s = new \/ s = stgit_sub new) r r'
+    /\ b_head r' = Some new
+    /\ ((forall k v, In (k, v) (b_refs r) -> v <> sid) ->
+        forall b, b <> new -> stack_patches r' b = stack_patches r b).
+Proof.
+  intros r new from hid sid r' H.
+  apply create_inv in H as [[H _]|[_ [tid [Et ->]]]]; [discriminate H|].
+  fold (cr_target r from hid). rewrite Et. cbn [b_refs b_cfg b_head].
+  assert (Hs : ref_get (cr_refs (b_refs r) new tid sid) (stack_ref new) = Some sid).
+  { apply ref_get_unique.
+    - apply In_cr_refs. right. right. split; reflexivity.
+    - intros v' H. apply In_cr_refs in H. destruct H as [[_ H]|[[H _]|[_ H]]].
+      + contradiction H. apply rob_stack.
+      + symmetry in H. contradiction (head_neq_stack _ _ H).
+      + exact H. }
+  split; [|split; [|split; [|split; [|split; [|split; [|split]]]]]].
+  - apply ref_get_unique.
+    + apply In_cr_refs. right. left. split; reflexivity.
+    + intros v' H. apply In_cr_refs in H. destruct H as [[_ H]|[[_ H]|[H _]]].
+      * contradiction H. apply rob_head.
+      * exact H.
+      * contradiction (head_neq_stack _ _ H).
+  - exact Hs.
+  - unfold stack_patches. cbn [b_refs b_states]. rewrite Hs. cbn [state_get].
+    rewrite N.eqb_refl. reflexivity.
+  - intros k v Hk H. apply In_cr_refs in H. destruct H as [[_ H]|[[-> _]|[-> _]]].
+    + apply H. right. right. exact Hk.
+    + rewrite pp_not_head in Hk. discriminate Hk.
+    + rewrite pp_not_stack in Hk. discriminate Hk.
+  - intros k v Hk. cbn [b_refs]. rewrite In_cr_refs. split.
+    + intros [[H _]|[[-> _]|[-> _]]]; [exact H| |].
+      * contradiction Hk. apply rob_head.
+      * contradiction Hk. apply rob_stack.
+    + intros H. left. split; assumption.
+  - intros e He. cbn [b_cfg]. apply cr_cfg_outside; intros X; apply He; auto.
+  - reflexivity.
+  - intros Hfresh b Hne. unfold stack_patches. cbn [b_refs b_states].
+    rewrite ref_get_cr_refs_stack; [|exact Hne].
+    destruct (ref_get (b_refs r) (stack_ref b)) as [id|] eqn:E; [|reflexivity].
+    apply state_get_fresh. apply (Hfresh (stack_ref b)). apply ref_get_In. exact E.
+Qed.
+
+Lemma switch_inv : forall r b r' ok,
+  switch r b = (r', ok) ->
+  (ok = false /\ r' = r)
+  \/ (ok = true /\ r' = mkB (b_refs r) (b_cfg r) (Some b) (b_states r)).
+Proof.
+  intros r b r' ok. unfold switch, refuse.
+  destruct (ref_get (b_refs r) (head_ref b)) as [x|];
+    [|intros H; injection H as <- <-; left; split; reflexivity].
+  destruct (b_head r) as [cur|].
+  - destruct (str_eqb cur b); intros H; injection H as <- <-.
+    + left. split; reflexivity.
+    + right. split; reflexivity.
+  - intros H. injection H as <- <-. right. split; reflexivity.
+Qed.
+
+Lemma switch_exact :
+  forall r b r' ok,
+    switch r b = (r', ok) ->
+    b_refs r' = b_refs r /\ b_cfg r' = b_cfg r /\ b_states r' = b_states r
+    /\ (ok = true -> b_head r' = Some b) /\ (ok = false -> b_head r' = b_head r).
+Proof.
+  intros r b r' ok H. apply switch_inv in H as [[-> ->]|[-> ->]]; cbn [b_refs b_cfg b_head b_states].
+  - repeat split; try reflexivity. intros X. discriminate X.
+  - repeat split; try reflexivity. intros X. discriminate X.
+Qed.
+
+Definition ds_cfg (C : list cfgent) (b text : str) : list cfgent :=
+  match text with
+  | [] => cfg_del_key C b s_description
+  | _ => cfg_set C b s_description text
+  end.
+
+Lemma describe_inv : forall r b text r' ok,
+  describe r b text = (r', ok) ->
+  (ok = false /\ r' = r)
+  \/ (ok = true /\ r' = mkB (b_refs r) (ds_cfg (b_cfg r) b text) (b_head r) (b_states r)).
+Proof.
+  intros r b text r' ok. unfold describe, refuse.
+  destruct (ref_get (b_refs r) (head_ref b)) as [x|]; intros H; injection H as <- <-.
+  - right. split; reflexivity.
+  - left. split; reflexivity.
+Qed.
+
+Lemma In_ds_cfg : forall C b text e,
+  ~ (ce_sub e = b /\ ce_key e = s_description) -> (In e (ds_cfg C b text) <-> In e C).
+Proof.
+  intros C b text e He. unfold ds_cfg. destruct text as [|c t].
+  - rewrite In_cfg_del_key. split; [intros [H _]; exact H|]. intros H. split; assumption.
+  - rewrite In_cfg_set. split.
+    + intros [[H _]|H]; [exact H|]. subst e. contradiction He. split; reflexivity.
+    + intros H. left. split; assumption.
+Qed.
+
+Lemma cfg_get_ds_cfg : forall C b text,
+  cfg_get (ds_cfg C b text) b s_description = match text with [] => None | _ => Some text end.
+Proof.
+  intros C b text. unfold ds_cfg. destruct text as [|c t].
+  - apply cfg_get_del_key_same.
+  - apply cfg_get_set_same.
+Qed.
+
+Lemma describe_exact :
+  forall r b text r' ok,
+    describe r b text = (r', ok) ->
+    b_refs r' = b_refs r /\ b_head r' = b_head r /\ b_states r' = b_states r
+    /\ (forall e, ~ (ce_sub e = b /\ ce_key e = s_description) -> (In e (b_cfg r') <-> In e (b_cfg r)))
+    /\ (ok = true -> cfg_get (b_cfg r') b s_description = match text with [] => None | _ => Some text end).
+Proof.
+  intros r b text r' ok H. apply describe_inv in H as [[-> ->]|[-> ->]];
+    cbn [b_refs b_cfg b_head b_states].
+  - split; [reflexivity|split; [reflexivity|split; [reflexivity|split]]].
+    + intros e _. reflexivity.
+    + intros X. discriminate X.
+  - split; [reflexivity|split; [reflexivity|split; [reflexivity|split]]].
+    + intros e He. apply In_ds_cfg. exact He.
+    + intros _. apply cfg_get_ds_cfg.
+Qed.
+
 (* ================================================================ refused commands *)
 
 Lemma refused_shape : forall r o r',
   bstep r o = (r', false) ->
   r' = r \/ exists b ps, op_names r o b /\ r' = opened r b ps.
 Proof.
-  intros r [new|old new|b f|b f|b|b] r' H; cbn [bstep] in H.
+  intros r [new from hid sid|b|b text|new|old new|b f|b f|b|b] r' H; cbn [bstep] in H.
+  - apply create_inv in H as [[_ H]|[H _]]; [left; exact H|discriminate H].
+  - apply switch_inv in H as [[_ H]|[H _]]; [left; exact H|discriminate H].
+  - apply describe_inv in H as [[_ H]|[H _]]; [left; exact H|discriminate H].
   - apply clone_inv in H as [[_ [H|[cur [ps [Hhd H]]]]]|[H _]]; [left; exact H| |discriminate H].
     right. exists cur, ps. split; [right; exact Hhd|exact H].
   - apply rename_inv in H as [[_ [H|[ps H]]]|[H _]]; [left; exact H| |discriminate H].
@@ -1100,7 +1397,20 @@ Proof.
   2:{ apply refused_shape in H as [->|[b [ps [Hn ->]]]].
       - split; [apply same_refs_refl|apply same_cfg_refl].
       - apply opened_footprint. exact Hn. }
-  destruct o as [new|old new|b f|b f|b|b]; cbn [bstep] in H.
+  destruct o as [new from hid sid|b|b text|new|old new|b f|b f|b|b]; cbn [bstep] in H.
+  - (* create *)
+    destruct (create_exact _ _ _ _ _ _ H) as [_ [_ [_ [_ [HR [HC _]]]]]]. split.
+    + intros k v Hk. apply HR. intros X. apply Hk. exists new. split; [reflexivity|exact X].
+    + intros e He. apply HC. intros X. apply He. exists new. split; [reflexivity|exact X].
+  - (* switch *)
+    destruct (switch_exact _ _ _ _ H) as [HR [HC _]]. split.
+    + intros k v _. rewrite HR. reflexivity.
+    + intros e _. rewrite HC. reflexivity.
+  - (* describe *)
+    destruct (describe_exact _ _ _ _ _ H) as [HR [_ [_ [HC _]]]]. split.
+    + intros k v _. rewrite HR. reflexivity.
+    + intros e He. apply HC. intros [X _]. apply He. exists b. split; [reflexivity|].
+      left. exact X.
   - (* clone *)
     pose proof H as H0. apply clone_inv in H0 as [[H0 _]|[_ H0]]; [discriminate H0|].
     destruct H0 as [cur [hid [sid [ps [Ehd [_ [Esp _]]]]]]].
